@@ -100,7 +100,7 @@ class C16(fw.Prop):
             "microseconds at +-1 around multiples of 10 000; all 1 681 offsets -840..+840 and none; all 32 status flag sets on encode and all 256 "
             "status bytes on decode; 12-byte inputs with each field swept over 0..255 (others valid) and random; each value is encoded (compared "
             "with the 12-byte layout), round-tripped (compared with the truncated value), and raw inputs are decoded (out-of-range ones must be refused); "
-            "zones with summer-time rules (CET, US Eastern, Australia, New Zealand) around both changes with fold 0 and 1; every clock-status byte inside a data-notification; non-trivial = distinct protocol line")
+            "zones with summer-time rules (CET, US Eastern, Australia, New Zealand) around both changes with fold 0 and 1; every clock-status byte inside a data-notification; every decode repeated after the status object was overwritten, and with the 12 bytes as a bytearray; non-trivial = distinct protocol line")
     trusted_base = ["Spec.DateTime is my reading of Blue Book 4.1.6.1", "Python's datetime/dateutil.tzoffset behave as restated in Model.Time (proleptic Gregorian calendar, year 1..9999)"]
     assumptions = ["UTC offsets are whole minutes within -14:00..+14:00", "status bits 4-6 are not represented by the library and are ignored on decode (C20)"]
     technique = "Lean 4 proof (arithmetic over byte fields, two's-complement deviation, calendar predicate) of layout, round trip incl. offset 0, and refusal of every out-of-range field; exhaustive field sweeps as correspondence"
